@@ -1350,6 +1350,26 @@ impl Checker {
         }
     }
 
+    /// A cached import shape carries the position of the import expression that resolved
+    /// the file first, possibly in another file of the same invocation. Position it (and the
+    /// names of its fields) at the current import expression instead, so that a cache hit
+    /// yields exactly the shape a fresh resolution would and diagnostics point at this import.
+    fn import_shape_at(cached: &Shape, pos: &Position) -> Shape {
+        match cached {
+            Shape::Import(ImportShape::Resolved(_, fields)) => {
+                let mut positioned: TupleShape = Vec::with_capacity(fields.len());
+                for (name, shape) in fields.iter() {
+                    positioned.push((
+                        PositionedItem::new(name.val.clone(), pos.clone()),
+                        shape.clone(),
+                    ));
+                }
+                Shape::Import(ImportShape::Resolved(pos.clone(), positioned))
+            }
+            other => other.clone(),
+        }
+    }
+
     /// Resolve an import path to a Shape by reading, parsing, and type-checking
     /// the imported file. Returns `ImportShape::Resolved` with the exported tuple
     /// shape, or `ImportShape::Unresolved` if no working directory is set.
@@ -1370,7 +1390,7 @@ impl Checker {
 
         // Check the cache first
         if let Some(cached) = self.shape_cache.borrow().get(&resolved_path) {
-            return cached.clone();
+            return Self::import_shape_at(cached, pos);
         }
 
         // Check for import cycles
